@@ -31,6 +31,22 @@ def formulas(tier, rng):
     for k in out:
         base = rng.sample(out[k], 60)
         out[k] += [stack_nots(t, n, k) for t in base for n in (2, 3, 4)]
+    # and/or with ONE operand and with four: the constructors accept any number (the arity is never checked, KF-C08-1),
+    # so these are objects a caller can have; where a constructor refuses one, the case is skipped
+    for k in out:
+        small = [t for t in out[k] if trees.size(t) <= 3 and t[0] != 'A'][:40]
+        extra = []
+        for t in small:
+            for op in ('and', 'or'):
+                extra.append((op, t))
+                extra.append((op, t, small[0], t, small[-1]))
+        if k == 'LTL':
+            extra += [('A', e) for e in extra[:40]]
+        elif k != 'CTL':
+            extra += [('E', ('G', e)) for e in extra[:40]]
+        else:
+            extra += [('E', ('G', e)) for e in extra[:40] if trees.wf_CTL_state(e)]
+        out[k] += extra
     return out
 
 
@@ -45,7 +61,7 @@ def run(ctx):
             cases.append((logic, ts[i:i + 25]))
     driver.run_cases(
         ctx, 'rewrite', 'vf.rtc.lang_rtc', 'check_rewrite_case', cases, chunk=1,
-        rule='formulas of CTL, LTL, CTL* to depth 2 (exhaustive up to the cap %s, sampled beyond), ternary and/or, stacked negations; '
+        rule='formulas of CTL, LTL, CTL* to depth 2 (exhaustive up to the cap %s, sampled beyond), and/or with one, three and four operands, stacked negations; '
              'equivalence decided by the reference semantics: quantifier-free path formulas on the universal 4-state structure over p,q '
              '(decides LTL equivalence over 2 atoms exactly), formulas with quantifiers on every structure with <=2 states + 40 sampled '
              '3-state structures; alphabet membership syntactic; LNot checked on the same formulas; distinct by (logic, formula)'
